@@ -29,6 +29,9 @@ mod process;
 #[cfg(all(boreal_verif, feature = "process", target_os = "linux"))]
 #[doc(hidden)]
 pub use process::verif_process_memory;
+#[cfg(boreal_verif)]
+#[doc(hidden)]
+pub use crate::timeout::verif as verif_timeout;
 
 /// Holds a list of rules, and provides methods to run them on files or bytes.
 ///
